@@ -84,16 +84,17 @@ type c13Thread struct {
 }
 
 type c13Env struct {
-	b       *doubles.MemBackend
-	ca      *doubles.CA
-	iss     *doubles.IssuerDouble
-	cfg     *certmagic.Config
-	cache   *certmagic.Cache
-	names   []string
-	mu      sync.Mutex
-	threads []*c13Thread
-	byGid   map[int64]*c13Thread
-	active  bool // gating on
+	b        *doubles.MemBackend
+	ca       *doubles.CA
+	iss      *doubles.IssuerDouble
+	cfg      *certmagic.Config
+	cache    *certmagic.Cache
+	names    []string
+	mu       sync.Mutex
+	threads  []*c13Thread
+	byGid    map[int64]*c13Thread
+	active   bool // gating on
+	scenario string
 }
 
 func (e *c13Env) threadOfCaller() *c13Thread {
@@ -179,13 +180,13 @@ func (e *c13Env) decision(ctx context.Context, name string) error {
 	return nil
 }
 
-var c13Scenarios = []string{"fresh", "stored-valid", "cached-due", "cached-expired", "cached-revoked", "cached-due-nostore", "stored-expired"}
+var c13Scenarios = []string{"fresh", "stored-valid", "cached-due", "cached-expired", "cached-revoked", "cached-due-nostore", "stored-expired", "cached-expired-nostore"}
 
 var c13Uniq int
 
 func c13NewEnv(scenario string) (*c13Env, error) {
 	c13Uniq++
-	e := &c13Env{b: doubles.NewMemBackend(), ca: doubles.NewCA("harness CA"), byGid: map[int64]*c13Thread{}}
+	e := &c13Env{b: doubles.NewMemBackend(), ca: doubles.NewCA("harness CA"), byGid: map[int64]*c13Thread{}, scenario: scenario}
 	e.names = []string{fmt.Sprintf("n0-%d.c13.example", c13Uniq), fmt.Sprintf("n1-%d.c13.example", c13Uniq)}
 	e.iss = &doubles.IssuerDouble{Key: c02IssuerKey, CA: e.ca, Log: e.b.Log, Inst: "i1"}
 	tmpl := certmagic.Config{OCSP: certmagic.OCSPConfig{DisableStapling: true},
@@ -193,7 +194,7 @@ func c13NewEnv(scenario string) (*c13Env, error) {
 	e.cfg, e.cache = doubles.NewConfig(e.b.Handle("i1"), tmpl, certmagic.CacheOptions{}, e.iss)
 	if scenario != "fresh" {
 		class := map[string]string{"stored-valid": "valid", "cached-due": "due", "cached-expired": "expired",
-			"cached-revoked": "valid", "cached-due-nostore": "due", "stored-expired": "expired"}[scenario]
+			"cached-revoked": "valid", "cached-due-nostore": "due", "stored-expired": "expired", "cached-expired-nostore": "expired"}[scenario]
 		nb, na := c02Validity(class)
 		chain, _, key, err := e.ca.Leaf(doubles.LeafOpts{Names: []string{e.names[0]}, NotBefore: nb, NotAfter: na})
 		if err != nil {
@@ -212,7 +213,7 @@ func c13NewEnv(scenario string) (*c13Env, error) {
 			if scenario == "cached-revoked" {
 				certmagic.VerifSetOCSPStatus(e.cfg, cc.Hash(), ocsp.Revoked, ocsp.Unspecified)
 			}
-			if scenario == "cached-due-nostore" {
+			if scenario == "cached-due-nostore" || scenario == "cached-expired-nostore" {
 				e.b.Remove(k.SiteCert(c02IssuerKey, n))
 				e.b.Remove(k.SitePrivateKey(c02IssuerKey, n))
 				e.b.Remove(k.SiteMeta(c02IssuerKey, n))
@@ -250,7 +251,15 @@ func (e *c13Env) arrive(tid, name int) {
 		case 1:
 			sni = strings.ToUpper(sni)
 		case 2:
-			sni = "  " + sni + " "
+			if e.scenario == "cached-expired-nostore" {
+				// here an expired and a new certificate are cached for the name at the same time: an
+				// SNI that no certificate "supports" (VerifyHostname fails on the blanks) makes
+				// DefaultCertificateSelector fall back to the first choice, expired or not (C03's
+				// subject): only spellings a TLS client can send
+				sni = strings.ToUpper(sni[:1]) + sni[1:]
+			} else {
+				sni = "  " + sni + " "
+			}
 		}
 		hello, closeHello := doubles.Hello(sni)
 		defer closeHello()
@@ -276,7 +285,7 @@ func (e *c13Env) arrive(tid, name int) {
 }
 
 var c13WaitFuncs = map[string]string{
-	"github.com/caddyserver/certmagic.(*Config).getCertDuringHandshake":     "wait-load",
+	"github.com/caddyserver/certmagic.(*Config).getCertDuringHandshake":    "wait-load",
 	"github.com/caddyserver/certmagic.(*Config).obtainOnDemandCertificate": "wait-obtain",
 	"github.com/caddyserver/certmagic.(*Config).renewDynamicCertificate":   "wait-renew",
 }
@@ -689,18 +698,18 @@ func c13RunCase(w *emit.Writer, cs *c13Case, desc map[string]any) error {
 	env.mu.Unlock()
 	// header: scenario flags, names, complete, initial cache / store, fresh
 	enc := &emit.Enc{}
-	enc.Bool(cs.Scenario == "cached-due").Bool(cs.Scenario == "cached-expired").Int(1)
+	enc.Bool(cs.Scenario == "cached-due").Bool(cs.Scenario == "cached-expired" || cs.Scenario == "cached-expired-nostore").Int(1)
 	enc.Len(2).Int(0).Int(1)
 	enc.Bool(complete)
 	clsCode := map[string]int{"valid": 0, "due": 1, "expired": 2}
 	class := map[string]string{"stored-valid": "valid", "cached-due": "due", "cached-expired": "expired",
-		"cached-revoked": "valid", "cached-due-nostore": "due", "stored-expired": "expired"}[cs.Scenario]
+		"cached-revoked": "valid", "cached-due-nostore": "due", "stored-expired": "expired", "cached-expired-nostore": "expired"}[cs.Scenario]
 	if strings.HasPrefix(cs.Scenario, "cached") {
 		enc.Len(1).Int(0).Len(1).Int(1).Int(clsCode[class]).Bool(cs.Scenario == "cached-revoked")
 	} else {
 		enc.Len(0)
 	}
-	if cs.Scenario != "fresh" && cs.Scenario != "cached-due-nostore" {
+	if cs.Scenario != "fresh" && cs.Scenario != "cached-due-nostore" && cs.Scenario != "cached-expired-nostore" {
 		enc.Len(1).Int(0).Int(1).Int(clsCode[class]).Bool(false)
 	} else {
 		enc.Len(0)
@@ -784,6 +793,19 @@ func c13Run(tier string, seed int64, outdir string, replay string) error {
 		acts = append(acts, end...)
 		cs := &c13Case{Scenario: "stored-expired", Threads: 3, Seed: int64(200 + i), Actions: acts}
 		if err := c13RunCase(w, cs, map[string]any{"class": "maintenance-failure-obtain", "scenario": cs.Scenario, "variant": i}); err != nil {
+			return err
+		}
+	}
+	// ---- corpus: waiters of a SUCCESSFUL obtain get the new certificate, not the cached expired one ----
+	// cached expired certificate whose bundle is gone: handshake 0 becomes the obtain worker (storage-
+	// missing branch), handshakes 1 and 2 pass the policy gate and wait for it; the issuer succeeds; the
+	// worker is then held at its read of the new bundle (loadCertFromStorage) BEFORE it may release: at
+	// that rest point the waiters must still be waiting, afterwards they must have the new certificate.
+	{
+		acts := []c13Action{{Kind: "arrive", T: 0}, {Kind: "release", T: 0, Allow: &yes}, {Kind: "arrive", T: 1}, {Kind: "release", T: 1, Allow: &yes},
+			{Kind: "arrive", T: 2}, {Kind: "release", T: 2, Allow: &yes}, {Kind: "release", T: 0, Outcome: "ok"}, {Kind: "release", T: 0}}
+		cs := &c13Case{Scenario: "cached-expired-nostore", Threads: 3, Seed: 400, Actions: acts}
+		if err := c13RunCase(w, cs, map[string]any{"class": "waiters-of-successful-obtain", "scenario": cs.Scenario}); err != nil {
 			return err
 		}
 	}
